@@ -23,6 +23,8 @@ def legs(ctx):
     return [
         dict(name="native", flavor="release", cases=400000, workers=12),
         dict(name="asan-exact", flavor="asan", cases=100000, workers=4, extra=["--exact", "1"]),
+        dict(name="libfuzzer-c12_write", flavor="fuzz", target="c12_write", runs=3000000, workers=1),
+        dict(name="miri", flavor="miri", cases=40, workers=1, extra=['--exact', '1']),
     ]
 
 
